@@ -183,6 +183,52 @@ func genCases(rng *rand.Rand, set, foreign []*pk.Key, m int, reps int) []sigCase
 		e = append(e, sigkit.Entry{Signer: e[0].Signer})
 		cs = append(cs, sigCase{"more-signatures-than-bookkeepers", e})
 	}
+	// lists LONGER than the quorum: the first m listed keys are distinct members, a foreign key (or a
+	// repeat of a listed member) sits past position m, and its signature is among the first m signatures
+	for _, tail := range []int{1, 3} {
+		pref := subset(rng, set, m)
+		var e []sigkit.Entry
+		for i, k := range pref {
+			if i < m-1 {
+				e = append(e, sigkit.Entry{Book: k, Signer: k})
+			} else {
+				e = append(e, sigkit.Entry{Book: k, Signer: foreign[0]}) // slot m: listed member, signature by the outsider
+			}
+		}
+		for t := 0; t < tail; t++ {
+			e = append(e, sigkit.Entry{Book: foreign[t]}) // outsider keys listed past the quorum prefix
+		}
+		cs = append(cs, sigCase{"foreign-key-past-quorum-prefix", e})
+	}
+	if m >= 2 {
+		pref := subset(rng, set, m)
+		var e []sigkit.Entry
+		for i, k := range pref {
+			if i < m-1 {
+				e = append(e, sigkit.Entry{Book: k, Signer: k})
+			} else {
+				e = append(e, sigkit.Entry{Book: k, Signer: pref[0]}) // second signature by the first member
+			}
+		}
+		e = append(e, sigkit.Entry{Book: pref[0]}) // the first member listed again past the prefix
+		cs = append(cs, sigCase{"repeated-key-past-quorum-prefix", e})
+	}
+	if n > m { // all members listed first, then an outsider; the m-th signature is the outsider's
+		all := subset(rng, set, n)
+		var e []sigkit.Entry
+		for i, k := range all {
+			switch {
+			case i < m-1:
+				e = append(e, sigkit.Entry{Book: k, Signer: k})
+			case i == m-1:
+				e = append(e, sigkit.Entry{Book: k, Signer: foreign[1]})
+			default:
+				e = append(e, sigkit.Entry{Book: k})
+			}
+		}
+		e = append(e, sigkit.Entry{Book: foreign[1]})
+		cs = append(cs, sigCase{"foreign-key-after-all-members", e})
+	}
 	if n > m { // a member that is not listed signs in place of a listed one (unspecified by the text)
 		p := subset(rng, set, m+1)
 		e := sigkit.Canonical(p[:m])
@@ -233,6 +279,21 @@ func (x *runner) judge(path, name string, entries []sigkit.Entry, set []*pk.Key,
 	r.Eval(1)
 	r.Distinct(len(set), x.rule, name, path, want, accepted)
 	r.Count("path_"+path, 1)
+	if want == mustReject && len(entries) > m {
+		nb := 0
+		for _, e := range entries {
+			if e.Book != nil {
+				nb++
+			}
+		}
+		if nb > m {
+			r.Count("must_reject_with_more_than_m_bookkeepers", 1)
+		}
+	}
+	switch name {
+	case "foreign-key-past-quorum-prefix", "repeated-key-past-quorum-prefix", "foreign-key-after-all-members":
+		r.Count("case_"+name, 1)
+	}
 	ctx := map[string]interface{}{"N": len(set), "rule": x.rule, "net": x.netID, "m": m, "case": name, "path": path, "valid_distinct_member_signatures": valid,
 		"slots": len(entries), "header": kit.Hex(blk.Header.ToArray()), "error": fmt.Sprint(err)}
 	switch {
@@ -454,7 +515,7 @@ func (x *runner) handover(B []*pk.Key, cfgSync bool) bool {
 func TestC14(t *testing.T) {
 	r := kit.Start(t, "C14", "exploration")
 	defer r.Finish()
-	r.Rule("for every N in 1..10 (quick) / 1..40 (thorough) and rule in {new (hook), legacy (hook), natural on a non-main and on the main network id}: a real ledger with N validators; canonical signer subsets of sizes {0,m-1,m,m+1,N} and 15 hostile list shapes, each through AddHeaders and AddBlock/SubmitBlock; then configuration hand-overs to sets of other sizes (disjoint and overlapping) with old/new-set signatures before and after; evaluation = one (candidate, path) verdict; distinct = (N, rule, case, path, expected, observed)")
+	r.Rule("for every N in 1..10 (quick) / 1..40 (thorough) and rule in {new (hook), legacy (hook), natural on a non-main and on the main network id}: a real ledger with N validators; canonical signer subsets of sizes {0,m-1,m,m+1,N} and 18 hostile list shapes (incl. lists longer than the quorum with an outsider / repeated key past position m whose signature is among the first m), each through AddHeaders and AddBlock/SubmitBlock; then configuration hand-overs to sets of other sizes (disjoint and overlapping) with old/new-set signatures before and after; evaluation = one (candidate, path) verdict; distinct = (N, rule, case, path, expected, observed)")
 	r.Assume("a canonical header (each listed bookkeeper a distinct member signing the header hash, at least m of them) must be accepted; shapes with >= m valid distinct member signatures that are not canonical are unspecified (recorded, not judged)")
 	r.Assume("the new rule (main net above height 20,000,000) is reachable only through the verif hook VerifNeedFixHook; on the natural path only the legacy rule can be observed")
 	maxN := r.N(10, 40)
@@ -551,6 +612,10 @@ func TestC14(t *testing.T) {
 	r.Require("handover_header", maxN)
 	r.Require("handover_block", maxN)
 	r.Require("handovers_completed", maxN)
+	r.Require("case_foreign-key-past-quorum-prefix", maxN*8)
+	r.Require("case_repeated-key-past-quorum-prefix", maxN)
+	r.Require("case_foreign-key-after-all-members", maxN*2)
+	r.Require("must_reject_with_more_than_m_bookkeepers", maxN*10)
 }
 
 func sameSet(a, b []*pk.Key) bool {
